@@ -5,6 +5,7 @@ package rosmar
 import (
 	"context"
 	"errors"
+	"sync"
 
 	sgbucket "github.com/couchbase/sg-bucket"
 )
@@ -379,7 +380,13 @@ func Harness_C16_multiCollection() {
 	var got []uint32
 	args := sgbucket.FeedArguments{ID: "m", Backfill: sgbucket.FeedNoBackfill, Terminator: term, DoneChan: done,
 		Scopes: map[string][]string{"_default": {"_default"}, "sc": {"c1"}}}
-	err := le.h2.StartDCPFeed(ctx, args, func(ev sgbucket.FeedEvent) bool { got = append(got, ev.CollectionID); return true }, nil)
+	var gotMu sync.Mutex // the per-collection feeds call back from their own goroutines
+	err := le.h2.StartDCPFeed(ctx, args, func(ev sgbucket.FeedEvent) bool {
+		gotMu.Lock()
+		got = append(got, ev.CollectionID)
+		gotMu.Unlock()
+		return true
+	}, nil)
 	verifAssert(err == nil, "multi-collection feed starts")
 	verifAssert(le.c1.SetRaw("k1", 0, nil, []byte("v")) == nil, "write to the default collection succeeds")
 	verifAssert(le.o1.SetRaw("k2", 0, nil, []byte("v")) == nil, "write to the named collection succeeds")
@@ -529,12 +536,21 @@ func Harness_C15_perCollection() {
 }
 
 // the same through the multi-collection entry point: stop, write to both collections, restart
-func Harness_C15_multiCollectionResume() {
+func Harness_C15_multiCollectionResume()             { multiCollectionResume(0) }
+func Harness_C15_multiCollectionResumeStopSched()    { multiCollectionResume(1) }
+func Harness_C15_multiCollectionResumeRestartSched_T() { multiCollectionResume(2) }
+
+// sched: the order in which the per-collection feeds stop (and write their checkpoints) and
+// restart is explored, not just the deterministic one
+func multiCollectionResume(sched int) {
 	le := lifeBegin(true)
 	ctx := context.Background()
 	var got []verifSeen
+	var gotMu sync.Mutex // the per-collection feeds call back from their own goroutines
 	cb := func(ev sgbucket.FeedEvent) bool {
+		gotMu.Lock()
 		got = append(got, verifSeen{key: string(ev.Key), cas: ev.Cas, op: ev.Opcode})
+		gotMu.Unlock()
 		return true
 	}
 	start := func() chan bool {
@@ -547,8 +563,14 @@ func Harness_C15_multiCollectionResume() {
 	verifAssert(le.o1.SetRaw("a", 0, nil, []byte("va")) == nil, "write succeeds")
 	term := start()
 	verifJoin()
+	if sched == 1 {
+		verifExplore(verifPreemptions() - 1) // every order in which the per-collection feeds stop and checkpoint
+	}
 	close(term)
 	verifJoin()
+	if sched == 1 {
+		verifExplore(-1)
+	}
 	// while the feed is down: a write to each collection, in either order
 	if verifBool("namedFirst") {
 		verifAssert(le.o1.SetRaw("a2", 0, nil, []byte("v")) == nil, "write succeeds")
@@ -557,8 +579,14 @@ func Harness_C15_multiCollectionResume() {
 		verifAssert(le.c1.SetRaw("b2", 0, nil, []byte("v")) == nil, "write succeeds")
 		verifAssert(le.o1.SetRaw("a2", 0, nil, []byte("v")) == nil, "write succeeds")
 	}
+	if sched == 2 {
+		verifExplore(verifPreemptions() - 1) // ... or in which they restart, backfill and checkpoint
+	}
 	term = start()
 	verifJoin()
+	if sched == 2 {
+		verifExplore(-1)
+	}
 	for _, key := range []string{"a", "a2", "b2"} {
 		found := false
 		for _, s := range got {
